@@ -241,7 +241,7 @@ ENTRY_POINTS = [
     ('beartype.door._func.doorfunc', 'is_bearable'),
     ('beartype.door._func.doorfunc', 'die_if_unbearable'),
     ('beartype._check.checkmake', 'make_func_checker'),
-    ('beartype.door._cls.doormeta', '_TypeHintMeta.__call__'),
+    ('beartype.door._cls.doormeta', '_TypeHintMetaclass.__call__'),
     ('beartype._decor.decorcache', 'beartype'),
 ]
 
@@ -258,9 +258,7 @@ def _hash_guards(ctx):
         if m is None:
             ctx.require(False, f'anchor vanished: module {modname}')
         fn = repo.find_def(modname, qual, required=False)
-        if fn is None:
-            ctx.note(f'entry point {modname}.{qual} not found (skipped)')
-            continue
+        ctx.require(fn is not None, f'anchor vanished: entry point {modname}.{qual}')
         params = set(params_of(fn)) - {'self', 'cls'}
         tainted = set(params)
         for a in walk_shallow(fn):
